@@ -107,8 +107,9 @@ class Pool:
         # which plots the representation of each result refers to
         self.plot_id = {}
         for i, res in enumerate(self.results):
-            lines = self.new_rst().format_result(res)
-            fps = re.findall(r'^\.\. image:: /figures/plot_(\w+)\.png$', '\n'.join(lines), re.M)
+            rst = self.new_rst()
+            rst.format_result(res)
+            fps = list(rst.plots)        # the plots the code itself registers for this result
             for fp in fps:
                 self.plot_id.setdefault(fp, f'p{len(self.plot_id)}')
             self.images.append([self.plot_id[fp] for fp in fps])
@@ -267,6 +268,9 @@ def gen_cases(ctx, pool):
         # distinct results whose tests have the same name: same page, cousin sections
         ['M', [0, 4, 8], [['TRIPOLI-4', [], [leaf('keff', [1, 5])]], ['MCNP', [], [leaf('keff', [9, 1])]]]],
         ['M', [], [leaf('A', [2, 6, 10]), leaf('B', [6, 2])]],
+        # plots on pages at depth 0, 1, 2, 3, 4: every image target must resolve from its own page
+        ['M', [0], [['A', [1], [['B', [3], [['C', [4], [leaf('D', [6])]]]]]], leaf('E', [7])]],
+        ['M', [], [['figures', [0], [['figures', [1], [leaf('x', [3])]]]]]],
         # the same TestReport object below two parents / twice below one parent / at two depths
         ['M', [0], [['A', [], [['S', [1], [leaf('x', [2])], 's1']]], ['B', [3], [['S', [1], [leaf('x', [2])], 's1']]]]],
         ['M', [0], [['S', [1], [], 's1'], ['A', [], [['S', [1], [], 's1']]]]],
@@ -377,8 +381,13 @@ def build_report(TestReport, pool, node, memo=None):
 def parse_page(text, pool):
     anchors = [pool.anchor_id.get(fp, 999999)
                for fp in re.findall(r'^\.\. _anchor_([0-9a-f]+):$', text, re.M)]
-    images = [pool.plot_id.get(fp, 'unknown-' + fp[:8])
-              for fp in re.findall(r'^\.\. image:: /figures/plot_(\w+)\.png$', text, re.M)]
+    # every image / figure directive, whatever its target looks like; the plot is recognised by the file name,
+    # the target itself is kept for the oracle (it must resolve to a written file)
+    targets = re.findall(r'^\.\. (?:image|figure):: *(.*?) *$', text, re.M)
+    images = []
+    for tgt in targets:
+        m = re.fullmatch(r'plot_(\w+)\.png', posixpath.basename(tgt))
+        images.append(pool.plot_id.get(m.group(1), 'unknown-' + m.group(1)[:8]) if m else 'not-a-plot:' + tgt[:40])
     descr = [int(n) for n in re.findall(r'^description (\d+)$', text, re.M)]
     toc = []
     lines = text.split('\n')
@@ -395,7 +404,7 @@ def parse_page(text, pool):
                 k += 1
         else:
             k += 1
-    return anchors, toc, images, lines[0], descr
+    return anchors, toc, images, lines[0], descr, targets
 
 
 def observe(base, rep_dir, pool, raised):
@@ -659,7 +668,15 @@ def oracle(ctx, tree, obs, pool, cfg=None, main=None):
         nres += sum(len(n[1]) for _, n in lst)
         if doc not in pages:
             continue
-        anchors, toc, images, title_line, descr = pages[doc]
+        anchors, toc, images, title_line, descr = pages[doc][:5]
+        # Sphinx: a target with a leading '/' is relative to the root of the report, any other to the directory
+        # of the page; either way it must be one of the written files
+        for tgt in (pages[doc][5] if len(pages[doc]) > 5 else []):
+            where = posixpath.normpath(tgt[1:] if tgt.startswith('/')
+                                       else posixpath.join(posixpath.dirname(doc), tgt))
+            if where not in obs['files']:
+                fail(f'page {doc}: image target {tgt!r} resolves to {where!r}, which was not written',
+                     'image-target-dangling')
         if len(lst) > 1:
             fail(f'page {doc} is shared by {len(lst)} sections', 'page-shared')
             continue
@@ -716,7 +733,8 @@ def coq_obs(obs):
     if obs['raised']:
         return '(ORaised ' + clist([coq_path(f) for f in obs['files']]) + ')'
     pages = []
-    for doc, (anchors, toc, images, _title, _descr) in obs['pages'].items():
+    for doc, page in obs['pages'].items():
+        anchors, toc, images = page[:3]
         pages.append('(mk_page ' + coq_path(doc) + ' ' + clist([cn(a) for a in anchors]) + ' '
                      + clist([coq_path(e) for e in toc]) + ' ' + clist([cstr(i) for i in images]) + ')')
     return ('(OWritten ' + clist(pages) + ' ' + clist([cstr(f) for f in obs['figs']]) + ' '
